@@ -185,7 +185,7 @@ def one(prop, tagsub, tier='quick', seed=1):
     spec = P.get('trace_spec', 'GoatTrace.tla')
     scens = []
     for part in P.get('parts') or [dict(gen=None)]:
-        got = [s for s in gen.generate(prop, tier, seed, genfn=part.get('gen')) if tagsub in s.get('tag', '')][:3]
+        got = [s for s in gen.generate(prop, tier, seed, genfn=part.get('gen')) if tagsub in s.get('tag', '')][:int(os.environ.get('VERIF_ONE_N', '3'))]
         if got:
             scens, spec = got, part.get('trace_spec', spec)
             break
